@@ -416,6 +416,7 @@ def check_framing(ck):
 
 def check_limits(ck):
     LIVE = _c04.live_limit(ck)
+    _c04.check_limit_init(ck, LIVE, "C08.reader-limit")
     _c04.check_content_length(ck, LIVE, R="C08.reader-limit")
     _c04.check_chunked(ck, LIVE, R="C08.reader-limit")
     R = "C08.reader-limit"
@@ -675,6 +676,8 @@ def check_assembly(ck):
 
 
 def run(ck):
+    from ..x_http import GuardedCheck
+    ck = GuardedCheck(ck)
     ck.rule("C08.status-line", "parse_response_start_line: fullmatch of a regex equal to RFC 9112 status-line, bounded 3-digit code, HTTPInputError otherwise; the client's start line goes through it")
     ck.rule("C08.body-framing-table", "client _read_body equals the RFC 9112 §6.3 selection (204 empty/err, chunked, Content-Length, close) with strict Content-Length/Transfer-Encoding errors")
     ck.rule("C08.no-body-table", "client _read_message reads no body for HEAD/1xx/204/304, rejects 1xx with CL/TE, reads the framed body otherwise")
@@ -839,6 +842,7 @@ MUTANTS = [
     ("204 rule applied to 205 as well", _m(H1, RB, replace_expr(lambda n: isinstance(n, ast.Compare) and _u(n) == "code == 204", lambda n: parse_expr("code in (204, 404)"))), "C08.body-framing-table"),
     ("conflicting Content-Length values collapse to the first", _m(H1, RB, remove_stmts(_if_raise("any("))), "C08.body-framing-table"),
     ("client without Content-Length reads no body", _m(H1, RB, replace_expr(lambda n: isinstance(n, ast.Attribute) and _u(n) == "self.is_client", lambda n: ast.Constant(value=False))), "C08.body-framing-table"),
+    ("body limit applied by truthiness (max_body_size=0 falls back to max_buffer_size)", _m(H1, "HTTP1Connection.__init__", replace_expr(lambda n: isinstance(n, ast.IfExp) and "max_body_size" in _u(n), lambda n: parse_expr("self.params.max_body_size or self.stream.max_buffer_size"))), "C08.reader-limit"),
     ("F8 repair undone: close-delimited body not compared with max_body_size", _m(H1, "HTTP1Connection._read_body_until_close", remove_stmts(_if_raise("_max_body_size"))), "C08.reader-limit"),
     ("close-delimited body limit checked after delivery", _m(H1, "HTTP1Connection._read_body_until_close", _limit_after_delivery), "C08.reader-limit"),
     ("close-delimited body compared with max_buffer_size", _m(H1, "HTTP1Connection._read_body_until_close", replace_expr(lambda n: isinstance(n, ast.Attribute) and _u(n) == "self._max_body_size", lambda n: parse_expr("self.stream.max_buffer_size"))), "C08.reader-limit"),
